@@ -86,3 +86,45 @@ def D20() -> bool:
 
 
 WITNESS.update({k: v for k, v in list(globals().items()) if k in ("D4", "D13", "D20")})
+
+
+def D26() -> bool:
+    from tealer.teal.instructions.parse_instruction import parse_line
+    return type(parse_line("int 1//c")).__name__ != "Int"
+
+
+def D27() -> bool:
+    from tealer.teal.instructions.parse_instruction import parse_line
+    try:
+        return type(parse_line("byte base64 //8=")).__name__ != "Byte"
+    except Exception:
+        return True
+
+
+def D29() -> bool:
+    from tealer.teal.instructions.parse_instruction import parse_line
+    return type(parse_line("switch")).__name__ == "UnsupportedInstruction"
+
+
+def D30() -> bool:
+    from tealer.teal.instructions.parse_instruction import parse_line
+    return type(parse_line("errx")).__name__ != "UnsupportedInstruction"
+
+
+def D22() -> bool:
+    src = ("#pragma version 6\nb main\nok:\npop\ntxn RekeyTo\nglobal ZeroAddress\n==\nassert\nint 1\nreturn\nmain:\nint 1\nload 8\nbnz ok\n")
+    return not _paths(src, "rekey-to")
+
+
+def D32() -> bool:
+    from tealer.teal.parse_teal import parse_teal
+    from tealer.utils.regex.regex import parse_regex, match_regex
+    teal = parse_teal("#pragma version 8\n" + "int 1\npop\n" * 700 + "int 7\nreturn\n")
+    try:
+        match_regex(teal, parse_regex("* =>\nint 7\nreturn\n"))
+        return False
+    except RecursionError:
+        return True
+
+
+WITNESS.update({k: v for k, v in list(globals().items()) if k in ("D22", "D26", "D27", "D29", "D30", "D32")})
